@@ -1,6 +1,7 @@
 package core
 
 import (
+	"errors"
 	"fmt"
 	"math/rand"
 	"strings"
@@ -26,14 +27,19 @@ func faultPre(x *X) {
 	op.Faults, op.ClientCancelStep, op.DeadlineMs = nil, 0, 0
 	cfg := c.Store
 	cfg.LatencyUs = 0
-	st, eng, _ := buildEngine(c, op, cfg)
-	o := RunQuery(QueryRun{Op: op, Eng: eng, Store: st, Sim: x.S, Acct: st, Contract: false})
+	op.Remote = nil
+	st, eng, parts := buildEngine(c, op, cfg)
+	o := RunQuery(QueryRun{Op: op, Eng: eng, Store: st, Sim: x.S, Acct: st, Parts: parts, Contract: false})
 	x.R.Evals++
 	x.Pre["complete"] = o
 	d := &DryInfo{Steps: x.S.Step(), Start: o.ExecStart, End: o.ExecEnd, Fallback: o.Fallback, Failed: o.Failed()}
-	if o.Acct != nil {
-		d.N = o.Acct.N
-		d.Kinds = o.Acct.Kinds
+	a := o.Acct
+	if op.FaultPart > 0 && op.FaultPart <= len(o.PartAccts) {
+		a = o.PartAccts[op.FaultPart-1]
+	}
+	if a != nil {
+		d.N = a.N
+		d.Kinds = a.Kinds
 	}
 	x.R.Dry = d
 }
@@ -61,7 +67,18 @@ func buildEngine(c *Case, op Op, cfg store.Cfg) (*store.Store, *Engine, []*store
 	for i := 0; i < n; i++ {
 		ps := store.New(parts[i], cfg, false)
 		stores = append(stores, ps)
-		remotes = append(remotes, NewRemote(op.Eng, ps))
+		rm := NewRemote(op.Eng, ps)
+		if f := op.Remote; f != nil && f.Part%n == i {
+			switch f.Kind {
+			case "create-err":
+				rm.CreateErr = &store.InjectedError{ID: "E#remote-create"}
+			case "exec-err":
+				rm.ExecErr = &store.InjectedError{ID: "E#remote-exec"}
+			case "delay":
+				rm.DelayMs = f.Ms
+			}
+		}
+		remotes = append(remotes, rm)
 	}
 	return st, NewEngine(op.Eng, remotes), stores
 }
@@ -71,11 +88,57 @@ func faultMain(x *X) {
 	op := c.Ops[0]
 	complete := x.Pre["complete"]
 	dry := x.R.Dry
-	st, eng, _ := buildEngine(c, op, c.Store)
-	o := RunQuery(QueryRun{Op: op, Eng: eng, Store: st, Sim: x.S, Acct: st, Contract: true})
+	st, eng, parts := buildEngine(c, op, c.Store)
+	o := RunQuery(QueryRun{Op: op, Eng: eng, Store: st, Sim: x.S, Acct: st, Parts: parts, Contract: true})
 	x.R.Evals++
 	alive := x.S.Drain()
 	x.queryOracles(o, op, st)
+	// fold the partitions' accounting and the transport's into the query's
+	if o.Acct != nil {
+		for i, pa := range o.PartAccts {
+			for k, n := range pa.Fired {
+				o.Acct.Fired[k] += n
+				x.R.Fired[k] += n
+			}
+			o.Acct.Delivered = append(o.Acct.Delivered, pa.Delivered...)
+			o.Acct.LiveAfterCancel = append(o.Acct.LiveAfterCancel, pa.LiveAfterCancel...)
+			for j, q := range pa.Queriers {
+				if q.Closes != 1 {
+					x.Viol("C17", "querier-close-count", "querier-close-count|distributed", fmt.Sprintf("%s: querier %d of partition %d closed %d times", op.Q, j, i, q.Closes))
+				}
+			}
+		}
+		for _, rm := range eng.Remotes {
+			o.Acct.Delivered = append(o.Acct.Delivered, rm.Delivered...)
+			if len(rm.Delivered) > 0 {
+				o.Acct.Fired["remote-"+op.Remote.Kind] += len(rm.Delivered)
+				x.R.Fired["remote-"+op.Remote.Kind] += len(rm.Delivered)
+			}
+			if rm.DelayMs > 0 && rm.Queries > 0 {
+				o.Acct.Fired["remote-delay"]++
+				x.R.Fired["remote-delay"]++
+			}
+		}
+	}
+	if op.Eng.Distributed {
+		x.Probe("distributed")
+	}
+	if !o.Created {
+		var refused []string
+		for _, rm := range eng.Remotes {
+			refused = append(refused, rm.Delivered...)
+		}
+		if len(refused) > 0 {
+			// a remote engine refused the query at creation: that is a storage failure too
+			x.Probe("error-delivered")
+			x.R.Nontrivial = true
+			x.R.Fired["remote-create-err"]++
+			var ie *store.InjectedError
+			if !errors.As(o.CreateErrVal, &ie) {
+				x.Viol("C15", "error-not-wrapped", "error-not-wrapped|create|"+errClass(o.CreateErr), fmt.Sprintf("%s: a remote engine failed query creation with %v but the creation error %q does not wrap it", op.Q, refused, o.CreateErr))
+			}
+		}
+	}
 	x.R.Brief = o.Brief()
 	shape := Shape(op.Q)
 	path := "native"
@@ -160,7 +223,11 @@ func faultMain(x *X) {
 	if o.Created {
 		op2 := op
 		op2.Faults, op2.ClientCancelStep, op2.DeadlineMs = nil, 0, 0
-		o2 := RunQuery(QueryRun{Op: op2, Eng: eng, Store: st, Sim: x.S, Acct: st, Contract: false})
+		op2.Remote = nil
+		for _, rm := range eng.Remotes {
+			rm.CreateErr, rm.ExecErr, rm.DelayMs = nil, nil, 0
+		}
+		o2 := RunQuery(QueryRun{Op: op2, Eng: eng, Store: st, Sim: x.S, Acct: st, Parts: parts, Contract: false})
 		x.R.Evals++
 		x.S.Drain()
 		prop := c.Prop
@@ -219,6 +286,16 @@ func GenFault(t *testing.T, r *rand.Rand, prop, tier string, progress *atomic.In
 	if c.Store.YieldEvery == 0 {
 		c.Store.YieldEvery = 1 + r.Intn(3)
 	}
+	if r.Intn(4) == 0 {
+		// through the distributed engine: faults hit one partition's storage or the transport
+		c.Ops[0].Eng.Distributed = true
+		c.NPart = 1 + r.Intn(3)
+		c.Parts = make([]int, len(data))
+		for i := range c.Parts {
+			c.Parts[i] = r.Intn(c.NPart)
+		}
+		c.Ops[0].FaultPart = 1 + r.Intn(c.NPart)
+	}
 	probe := c.Clone()
 	probe.Scen = "probe"
 	probe.Sched = Sched{Strategy: "first"}
@@ -264,6 +341,21 @@ func GenFault(t *testing.T, r *rand.Rand, prop, tier string, progress *atomic.In
 	kind := prop
 	if prop == "C17" {
 		kind = []string{"C13", "C14", "C15", "none"}[r.Intn(4)]
+	}
+	if o.Eng.Distributed && r.Intn(3) == 0 && (kind == "C14" || kind == "C15") {
+		// transport faults instead of storage faults
+		part := r.Intn(c.NPart)
+		if kind == "C15" {
+			o.Remote = &RemoteFault{Part: part, Kind: []string{"create-err", "exec-err"}[r.Intn(2)]}
+		} else {
+			o.Remote = &RemoteFault{Part: part, Kind: "delay", Ms: int64(1 + r.Intn(3000))}
+			if r.Intn(2) == 0 {
+				o.DeadlineMs = int64(1 + r.Intn(3000))
+			} else {
+				o.ClientCancelStep = d.Start + 1 + r.Intn(execSteps*2)
+			}
+		}
+		return c
 	}
 	switch kind {
 	case "C13":
